@@ -194,7 +194,7 @@ func (k Keeper) CalculationOfRewards(
 	// quantises the accrual to ulp(1) = 2.2e-16 of the principal, which made two
 	// consecutive short accruals yield more than one accrual over the combined interval
 	intAccPerBlock := math.Expm1(yearsElapsed.MustFloat64() * math.Log1p(b.MustFloat64()))
-	amtFloat := sdk.NewDec(amount.Int64()).MustFloat64()
+	amtFloat := sdk.NewDecFromInt(amount).MustFloat64()
 	newAmount := intAccPerBlock * amtFloat
 
 	// s := fmt.Sprint(newAmount)
